@@ -154,13 +154,15 @@ def parse_vspec(path):
                 k = int(n)
             cur = dict(text=r.strip())
             spec['loops' if key == 'loop' else 'closures'][k] = cur
-        elif key == 'at':
+        elif key in ('at', 'at?'):
+            # `at?`: an optional hint (the proof goes through without it on some code shapes): a lost anchor does not compromise the unit
+            optional_ = key == 'at?'
             m = re.match(r'\s*(before|after)\s+"((?:[^"\\]|\\.)*)"(?:#(\d+))?\s*()$', rest)
             mr = re.match(r'\s*(before|after)\s+/((?:[^/\\]|\\.)*)/\s*(.*)$', rest)
             if m:
-                cur = dict(where=m.group(1), anchor=bytes(m.group(2), 'utf-8').decode('unicode_escape'), text='', rx=False, nth=int(m.group(3)) if m.group(3) else None)
+                cur = dict(where=m.group(1), anchor=bytes(m.group(2), 'utf-8').decode('unicode_escape'), text='', rx=False, nth=int(m.group(3)) if m.group(3) else None, optional=optional_)
             elif mr:
-                cur = dict(where=mr.group(1), anchor=mr.group(2), text=mr.group(3), rx=True)
+                cur = dict(where=mr.group(1), anchor=mr.group(2), text=mr.group(3), rx=True, optional=optional_)
             else:
                 raise SliceError('%s: bad at-line: %s' % (path, rest))
             spec['ats'].append(cur)
@@ -399,9 +401,10 @@ def apply_r27(mt, log):
     the first `Err` (definition of Iterator::skip / try_fold for the Result residual; BODY is kept verbatim)"""
     while True:
         msk = mask(mt.text)
-        m = re.search(r'\.iter\(\)\s*\.skip\((\d+)\)\s*\.try_fold\(', msk)
+        m = re.search(r'\.iter\(\)\s*\.skip\((\d+)\)\s*\.(try_fold|fold)\(', msk)
         if not m:
             return
+        plain_fold = m.group(2) == 'fold'
         open_p = m.end() - 1
         close_p = match_close(msk, open_p)
         # receiver: back from `.iter` over a postfix chain  (ident | ident(..) | ident[..]) ('.' ...)*
@@ -453,6 +456,18 @@ def apply_r27(mt, log):
             return
         body = rest[cm.end():].strip().rstrip(',').strip()
         a_, x_, n_ = cm.group(1), cm.group(2), m.group(1)
+        if plain_fold:
+            # Iterator::fold: the same loop without the error channel (same variable names, so the proof aids of the try_fold form still anchor)
+            new = (' { let mut __acc = %s; let mut __i: usize = %s; let mut __err: Option<ExecutionError> = None;\n'
+                   'while __i < %s.len() && __err.is_none() {\n'
+                   'let %s = &%s[__i]; let %s = __acc;\n'
+                   '__acc = %s;\n'
+                   '__i = __i + 1;\n'
+                   '}\n'
+                   '__acc }') % (init, n_, recv, x_, recv, a_, body)
+            mt.replace(k, close_p + 1, new)
+            log.append(('R27', '%s.iter().skip(%s).fold(..) => indexed loop over the same closure body' % (recv, n_)))
+            continue
         new = (' { let mut __acc = %s; let mut __i: usize = %s; let mut __err = None;\n'
                'while __i < %s.len() && __err.is_none() {\n'
                'let %s = &%s[__i]; let %s = __acc;\n'
@@ -1307,7 +1322,8 @@ class Weaver:
                     i, alen, cnt = fz[0], fz[1], 1
                     fuzzy.append('hint anchor %r re-anchored on %r' % (at['anchor'], norm(mt.text[i:i + alen])))
             if cnt != 1:
-                lost.append('hint anchor %r (matches %d times)' % (at['anchor'], cnt))
+                if not at.get('optional'):
+                    lost.append('hint anchor %r (matches %d times)' % (at['anchor'], cnt))
                 continue
             if at['where'] == 'before':
                 mt.insert_line_at(i, hold(at['text'], 'at:%s' % at['anchor']))
